@@ -1,14 +1,37 @@
 (* C05 — logical clocks only move forward and dominate everything seen. Property theorems only. *)
 From Coq Require Import List Arith NArith Lia Bool.
 Import ListNotations.
-From GB Require Import Reach Sort Read Good Snoc World.
+From GB Require Import Reach Sort Read Good Snoc World ClockWrap Sync SyncProps.
 Local Open Scope N_scope.
 
 (* in every state reachable by any interleaving (including restarts with lost clock files), each replica's
    edit clock is at least the edit time of every local head, and every stored edit time is bounded by the
    number of increments: no wrap below 10^6 increments *)
-Theorem C05_clock_dominates n acts w : run (w0 n) acts = Some w -> N.of_nat (length acts) + 1 <= jump_limit ->
+Theorem C05_clock_dominates n acts w : run (w0 n) acts = Some w -> N.of_nat (length acts) + 1 <= Read.jump_limit ->
   forall rp h, In rp (reps w) -> In h (heads rp) -> edit_of (st w) h <= clk rp.
-Proof. intros H B rp h Hr Hh. assert (I : inv w) by (eapply run_inv; [apply inv_w0| |exact H]; cbn; lia).
-  destruct I as (_ & I & _). now apply I. Qed.
+Proof. exact (World.clock_dominates n acts w). Qed.
 Print Assumptions C05_clock_dominates.
+
+(* below the wrap and within the jump limit, a commit written at clock c on a parent with time p <= c reads back *)
+Theorem C05_write_readable c p : p <= c -> c - p < ClockWrap.jump_limit -> c + 1 < wrap -> readable p (child_edit c) = true.
+Proof. exact (write_readable c p). Qed.
+Print Assumptions C05_write_readable.
+
+Theorem C05_monotone c v : (c + 1 < wrap -> c < incr c) /\ c <= witness c v /\ v <= witness c v.
+Proof. exact (conj (incr_monotone c) (witness_monotone c v)). Qed.
+Print Assumptions C05_monotone.
+
+(* finding F-clock: the full statement is false of the faithful model *)
+Theorem C05_forged_jump_refuted : exists c p v, p <= c /\ snd (after_forged_root c p v) = false.
+Proof. exact forged_jump_refuted. Qed.
+Print Assumptions C05_forged_jump_refuted.
+
+Theorem C05_wrap_refuted : exists c p, after_forged_root c p (wrap - 1) = (0, false).
+Proof. exact forged_wrap_refuted. Qed.
+Print Assumptions C05_wrap_refuted.
+
+(* in every state of every session each replica's edit clock is at least the edit time of all its local heads *)
+Theorem C05_session_clock_dominates n evs sw : srun (sw0 n) evs = Some sw -> N.of_nat (total_cost evs) + 1 <= Read.jump_limit ->
+  forall rp h, In rp (reps (ww sw)) -> In h (heads rp) -> edit_of (st (ww sw)) h <= clk rp.
+Proof. exact (session_clock_dominates n evs sw). Qed.
+Print Assumptions C05_session_clock_dominates.
